@@ -10,6 +10,11 @@
 //	             equal the value of the MODEL's tree walked with the library's own Operator functions and Functions;
 //	             reused evaluator = fresh evaluator; division by zero as configured; no panic.
 //	             Gen for this area emits `t <hex>` lines (the Lean driver answers with the tree).
+//	area fxval   (model correspondence, values)  x <k> <z> <hex>: NewFixedEvaluator[fixed.Dk] against the value the Lean
+//	             driver COMPUTES with Model/EvalFixed.lean (fxval.go).
+//	area flval   (model correspondence, values)  y <bits> <z> <hex>: NewFloatEvaluator[float64|float32] against the value the
+//	             Lean driver COMPUTES with Model/EvalFloat.lean over the IEEE-754 model, bit for bit; every line also on a
+//	             reused evaluator (flval.go).
 package main
 
 import (
@@ -397,5 +402,6 @@ func main() {
 		"wf":     &guarded{name: "wf", mk: func() hx.Area { return &wfArea{} }},
 		"val":    &guarded{name: "val", mk: func() hx.Area { return &valArea{} }},
 		"fxval":  &guarded{name: "fxval", mk: func() hx.Area { return fxArea{} }},
+		"flval":  &guarded{name: "flval", mk: func() hx.Area { return &flArea{} }},
 	})
 }
